@@ -6,6 +6,8 @@
 //
 //   c08_grid record OUT tier          (tier: quick | thorough)
 //   c08_grid replay RECORD.json OUT   (re-drive the inputs of one saved record)
+//   c08_grid objreplay SCRIPTS.ndjson OUT       (one JSON array of grid-object operations per line)
+//   c08_grid objrecord OUT seed histories maxlen (seeded random grid-object histories)
 //
 // Representation conventions (not expectations): unsigned values >= 2^31-1 are logged as
 // 2147483647 (TLC integers are 32 bit; every value the specification can demand in this
@@ -25,6 +27,11 @@
 #include <fcppt/container/grid/fill.hpp>
 #include <fcppt/container/grid/in_range.hpp>
 #include <fcppt/container/grid/in_range_dim.hpp>
+#include <fcppt/container/grid/interpolate.hpp>
+#include <fcppt/container/grid/make_spiral_range.hpp>
+#include <fcppt/container/grid/output.hpp>
+#include <fcppt/container/grid/static_row.hpp>
+#include <fcppt/math/interpolation/linear.hpp>
 #include <fcppt/container/grid/make_pos_range.hpp>
 #include <fcppt/container/grid/make_pos_range_start_end.hpp>
 #include <fcppt/container/grid/make_pos_ref_crange.hpp>
@@ -48,6 +55,8 @@
 #include <fcppt/optional/reference.hpp>
 
 #include <array>
+#include <optional>
+#include <sstream>
 #include <cstdint>
 #include <limits>
 #include <string>
@@ -659,6 +668,377 @@ gen_t<N> get_gen(vj::V const &v, char const *k)
   return t;
 }
 
+
+// ================================================================== extension round
+// ------------------------------------------------------------------ interpolate (dyadic positions, exact)
+// grid<double> with integer cell values, position = q / 4 per coordinate, linear interpolator:
+// the result times 16 is an integer and is logged as such.  Only positions whose 2^N neighbours
+// floor(q/4) + {0,1}^N are inside the grid are driven (the function reads all of them).
+template <std::size_t N>
+void op_interp(tup<N> const &gsize, gen_t<N> const &g, tup<N> const &q)
+{
+  using G = grid::object<double, N>;
+  vj::begin_call(vj::J().kv("f", "interp").kv("N", static_cast<ll>(N)).raw("gsize", js<N>(gsize)).raw("gen", js<N + 1>(g)).raw("q", js<N>(q)).s);
+  G const gr(mkdim<typename G::dim>(gsize), [&g](typename G::pos const &p) { return static_cast<double>(lin<N>(g, p)); });
+  auto const pos = fcppt::math::vector::init<fcppt::math::vector::static_<double, N>>(
+      [&q](auto const i) { return static_cast<double>(q[decltype(i)::value]) / 4.0; });
+  double const r = grid::interpolate(gr, pos, [](double const f, double const a, double const b) { return fcppt::math::interpolation::linear(f, a, b); });
+  double const r16 = r * 16.0;
+  ll const ri = static_cast<ll>(r16);
+  vj::end_call(",\"r16\":" + std::to_string(ri) + ",\"exact\":" + (static_cast<double>(ri) == r16 ? "true" : "false") + "}");
+}
+
+// ------------------------------------------------------------------ spiral range x grid
+// walk make_spiral_range around a (signed) origin; every produced position with non-negative
+// coordinates is looked up with at_optional; the cells found are logged in the order found
+void op_spiral_grid(tup<2> const &gsize, gen_t<2> const &g, tup<2> const &o, ll d)
+{
+  using G = grid_t<2>;
+  using spos = grid::pos<long, 2>;
+  vj::begin_call(vj::J().kv("f", "spiral_grid").kv("N", 2).raw("gsize", js<2>(gsize)).raw("gen", js<3>(g)).raw("o", js<2>(o)).kv("d", d).s);
+  G gr = make_grid<2>(gsize, g);
+  std::string hits = "[";
+  std::vector<ll> vals;
+  int n = 0;
+  bool capped = false;
+  auto const r = grid::make_spiral_range(spos(static_cast<long>(o[0]), static_cast<long>(o[1])), static_cast<long>(d));
+  for (auto it = r.begin(); it != r.end(); ++it)
+  {
+    if (++n > CAP)
+    {
+      capped = true;
+      break;
+    }
+    spos const sp = *it;
+    if (sp.x() < 0 || sp.y() < 0) continue;
+    typename G::pos const up(static_cast<std::size_t>(sp.x()), static_cast<std::size_t>(sp.y()));
+    auto const ref = grid::at_optional(gr, up);
+    if (ref.has_value())
+    {
+      if (!vals.empty()) hits += ',';
+      hits += jv<2>(up);
+      vals.push_back(fcppt::optional::maybe(ref, [] { return 0; }, [](fcppt::reference<int> const x) { return x.get(); }));
+    }
+  }
+  vj::end_call(",\"hits\":" + hits + "],\"vals\":" + jl(vals) + ",\"capped\":" + (capped ? "true" : "false") + "}");
+}
+
+// ------------------------------------------------------------------ the grid object as a state machine
+constexpr int NSLOT = 2;
+using G2 = grid_t<2>;
+struct slot_t
+{
+  std::optional<G2> g;
+  bool moved = false;
+};
+slot_t slots[NSLOT + 1]; // 1-based
+
+std::string slot_obs(slot_t const &s)
+{
+  if (!s.g.has_value()) return "{\"k\":\"dead\"}";
+  if (s.moved) return "{\"k\":\"moved\"}";
+  return "{\"k\":\"live\"," + grid_obs<2>(*s.g) + "}";
+}
+std::string all_slots()
+{
+  std::string r = "[";
+  for (int k = 1; k <= NSLOT; ++k)
+  {
+    if (k > 1) r += ',';
+    r += slot_obs(slots[k]);
+  }
+  return r + "]";
+}
+
+G2 rows_grid(ll w, ll h)
+{
+  using grid::static_row;
+  if (w == 1 && h == 1) return G2(static_row(1));
+  if (w == 3 && h == 2) return G2(static_row(1, 2, 3), static_row(4, 5, 6));
+  if (w == 2 && h == 3) return G2(static_row(1, 2), static_row(3, 4), static_row(5, 6));
+  if (w == 4 && h == 1) return G2(static_row(1, 2, 3, 4));
+  if (w == 1 && h == 3) return G2(static_row(1), static_row(2), static_row(3));
+  throw std::runtime_error("rows shape not instantiated");
+}
+
+struct action
+{
+  std::string op;
+  int d = 0, s = 0;
+  tup<2> size{{0, 0}};
+  ll v = 0;
+  gen_t<2> gen{{0, 0, 0}};
+  tup<2> p{{0, 0}};
+  ll k = 0;
+};
+std::string action_json(action const &a)
+{
+  return vj::J().kv("op", a.op).kv("d", a.d).kv("s", a.s).raw("size", js<2>(a.size)).kv("v", a.v).raw("gen", js<3>(a.gen)).raw("p", js<2>(a.p)).kv("k", a.k).s;
+}
+
+// get_unsafe / iterator writes outside the object are undefined: a script (generated from the model) is
+// only continued while its next operation is defined on the REAL object; otherwise the history is
+// abandoned with an "obj_stop" record (the divergence was caused by an earlier, already judged event)
+bool obj_defined(action const &a)
+{
+  if (a.op != "write_unsafe" && a.op != "write_iter") return true;
+  slot_t const &D = slots[a.d];
+  if (!D.g.has_value() || D.moved) return false;
+  if (a.op == "write_iter") return a.k >= 0 && static_cast<unsigned long long>(a.k) < D.g->content();
+  return a.p[0] >= 0 && a.p[1] >= 0 && static_cast<unsigned long long>(a.p[0]) < D.g->size().w() &&
+         static_cast<unsigned long long>(a.p[1]) < D.g->size().h() && D.g->content() == static_cast<std::size_t>(std::distance(D.g->begin(), D.g->end()));
+}
+
+bool obj_step(long h, int i, action const &a)
+{
+  if (!obj_defined(a))
+  {
+    vj::line("{\"f\":\"obj_stop\",\"N\":2,\"h\":" + std::to_string(h) + ",\"i\":" + std::to_string(i) + "," + action_json(a).substr(1) + "}");
+    return false;
+  }
+  // the operation is named before anything is touched; observing the slots before the operation can
+  // itself abort if an earlier operation left an object inconsistent - the partial line then has no "pre"
+  vj::begin_call("{\"f\":\"obj\",\"N\":2,\"h\":" + std::to_string(h) + ",\"i\":" + std::to_string(i) + "," + action_json(a).substr(1));
+  vj::begin_call(",\"pre\":" + all_slots());
+  slot_t &D = slots[a.d];
+  int ret = 0;
+  std::string text = "[]";
+  auto const dimof = [](tup<2> const &t) { return mkdim<G2::dim>(t); };
+  auto const posof = [](tup<2> const &t) { return mkvec<G2::pos>(t); };
+  gen_t<2> const gen = a.gen;
+  if (a.op == "ctor_value")
+  {
+    D.g.emplace(dimof(a.size), static_cast<int>(a.v));
+    D.moved = false;
+  }
+  else if (a.op == "ctor_fn")
+  {
+    D.g.emplace(dimof(a.size), [&gen](G2::pos const &p) { return lin<2>(gen, p); });
+    D.moved = false;
+  }
+  else if (a.op == "ctor_rows")
+  {
+    D.g.emplace(rows_grid(a.size[0], a.size[1]));
+    D.moved = false;
+  }
+  else if (a.op == "copy_ctor")
+  {
+    G2 const &src = *slots[a.s].g;
+    D.g.emplace(src);
+    D.moved = false;
+  }
+  else if (a.op == "move_ctor")
+  {
+    D.g.emplace(std::move(*slots[a.s].g));
+    D.moved = false;
+    slots[a.s].moved = true;
+  }
+  else if (a.op == "copy_assign")
+  {
+    G2 const &src = *slots[a.s].g;
+    *D.g = src;
+    D.moved = false;
+  }
+  else if (a.op == "move_assign")
+  {
+    G2 &src = *slots[a.s].g;
+    *D.g = std::move(src);
+    if (a.d != a.s)
+    {
+      slots[a.s].moved = true;
+      D.moved = false;
+    }
+  }
+  else if (a.op == "swap")
+  {
+    if ((a.k & 1) != 0)
+      D.g->swap(*slots[a.s].g);
+    else
+      grid::swap(*D.g, *slots[a.s].g);
+  }
+  else if (a.op == "write_unsafe")
+    D.g->get_unsafe(posof(a.p)) = static_cast<int>(a.v);
+  else if (a.op == "write_at")
+  {
+    auto const ref = grid::at_optional(*D.g, posof(a.p));
+    ret = ref.has_value() ? 1 : 0;
+    fcppt::optional::maybe(ref, [] {}, [&a](fcppt::reference<int> const x) { x.get() = static_cast<int>(a.v); });
+  }
+  else if (a.op == "write_iter")
+    *(D.g->begin() + static_cast<G2::difference_type>(a.k)) = static_cast<int>(a.v);
+  else if (a.op == "resize_assign")
+  {
+    // the result of resize is observed before it is stored: storing it is a move assignment, which is
+    // a different (observed-only) operation of the object
+    G2 res = grid::resize(*D.g, dimof(a.size), [&gen](G2::pos const &p) { return lin<2>(gen, p); });
+    std::string post = "[";
+    for (int k = 1; k <= NSLOT; ++k)
+    {
+      if (k > 1) post += ',';
+      post += k == a.d ? "{\"k\":\"live\"," + grid_obs<2>(res) + "}" : slot_obs(slots[k]);
+    }
+    post += "]";
+    vj::end_call(",\"post\":" + post + ",\"ret\":0,\"text\":[]}");
+    *D.g = std::move(res);
+    return true;
+  }
+  else if (a.op == "fill")
+    grid::fill(*D.g, [&gen](G2::pos const &p) { return lin<2>(gen, p); });
+  else if (a.op == "output")
+  {
+    std::ostringstream os;
+    os << *D.g;
+    text = vj::cps(os.str());
+  }
+  else if (a.op == "destroy")
+  {
+    D.g.reset();
+    D.moved = false;
+  }
+  else
+    throw std::runtime_error("obj: unknown op " + a.op);
+  vj::end_call(",\"post\":" + all_slots() + ",\"ret\":" + std::to_string(ret) + ",\"text\":" + text + "}");
+  return true;
+}
+
+void obj_reset()
+{
+  for (int k = 1; k <= NSLOT; ++k)
+  {
+    slots[k].g.reset();
+    slots[k].moved = false;
+  }
+}
+
+action action_of(vj::V const &v)
+{
+  action a;
+  a.op = v.str("op");
+  a.d = static_cast<int>(v.num("d"));
+  a.s = static_cast<int>(v.num("s"));
+  a.size = get_tup<2>(v, "size");
+  a.v = v.num("v");
+  a.gen = get_gen<2>(v, "gen");
+  a.p = get_tup<2>(v, "p");
+  a.k = v.num("k");
+  return a;
+}
+
+// one script = JSON array of actions (TLC-generated or a saved history)
+void obj_replay(char const *scripts, char const *out)
+{
+  auto const lines = vj::read_lines(scripts);
+  vj::open(out);
+  long h = 0;
+  for (auto const &l : lines)
+  {
+    ++h;
+    obj_reset();
+    auto const arr = vj::parse(l);
+    int i = 0;
+    for (auto const &e : arr->a)
+      if (!obj_step(h, ++i, action_of(*e))) break;
+  }
+  obj_reset();
+  vj::close();
+}
+
+// seeded random histories; arguments are chosen from what the driver itself has done so far
+// (kinds of the slots) and from the sizes the objects report
+void obj_record(char const *out, unsigned long long seed, int nhist, int maxlen)
+{
+  vj::open(out);
+  vj::Rng rng(seed);
+  static char const *const ops[] = {"ctor_value", "ctor_fn", "ctor_rows", "copy_ctor", "move_ctor", "copy_assign", "move_assign", "swap",
+                                    "write_unsafe", "write_at", "write_iter", "resize_assign", "fill", "output", "destroy"};
+  static ll const shapes[][2] = {{1, 1}, {3, 2}, {2, 3}, {4, 1}, {1, 3}};
+  for (long h = 1; h <= nhist; ++h)
+  {
+    obj_reset();
+    int const len = static_cast<int>(rng.range(1, maxlen));
+    int i = 0;
+    for (int tries = 0; i < len && tries < 40 * len; ++tries)
+    {
+      action a;
+      a.op = ops[rng.below(sizeof ops / sizeof ops[0])];
+      a.d = static_cast<int>(rng.range(1, NSLOT));
+      a.s = static_cast<int>(rng.range(1, NSLOT));
+      slot_t const &D = slots[a.d];
+      slot_t const &S = slots[a.s];
+      bool const dlive = D.g.has_value() && !D.moved, slive = S.g.has_value() && !S.moved;
+      a.size = {rng.range(0, 3), rng.range(0, 3)};
+      a.v = rng.range(-9, 99);
+      a.gen = {rng.range(-50, 500), rng.range(-3, 9), rng.range(-3, 20)};
+      a.k = static_cast<ll>(rng.below(2));
+      bool ok = false;
+      if (a.op == "ctor_value" || a.op == "ctor_fn")
+        ok = !D.g.has_value();
+      else if (a.op == "ctor_rows")
+      {
+        auto const &sh = shapes[rng.below(5)];
+        a.size = {sh[0], sh[1]};
+        ok = !D.g.has_value();
+      }
+      else if (a.op == "copy_ctor" || a.op == "move_ctor")
+        ok = !D.g.has_value() && slive && a.d != a.s;
+      else if (a.op == "copy_assign" || a.op == "move_assign")
+        ok = D.g.has_value() && slive && (a.d != a.s || dlive);
+      else if (a.op == "swap")
+        ok = dlive && slive;
+      else if (a.op == "write_unsafe")
+      {
+        ok = dlive && D.g->content() > 0;
+        if (ok) a.p = {static_cast<ll>(rng.below(D.g->size().w())), static_cast<ll>(rng.below(D.g->size().h()))};
+      }
+      else if (a.op == "write_at")
+      {
+        ok = dlive;
+        a.p = {rng.range(0, 4), rng.range(0, 4)};
+      }
+      else if (a.op == "write_iter")
+      {
+        ok = dlive && D.g->content() > 0;
+        if (ok) a.k = static_cast<ll>(rng.below(D.g->content()));
+      }
+      else if (a.op == "resize_assign" || a.op == "fill" || a.op == "output")
+        ok = dlive;
+      else if (a.op == "destroy")
+        ok = D.g.has_value() && rng.below(3) == 0;
+      if (!ok) continue;
+      if (!obj_step(h, ++i, a)) break;
+    }
+  }
+  obj_reset();
+  vj::close();
+}
+
+template <std::size_t N>
+void record_interp()
+{
+  gen_t<N> const g1 = std_gen<N>(1000, 1, 10, 100);
+  gen_t<N> const g3 = std_gen<N>(-40, -1, 2, 9);
+  for_box<N>(fill_tup<N>(2), fill_tup<N>(N == 1 ? 4 : 3), [&](tup<N> const &size) {
+    tup<N> hi;
+    for (std::size_t i = 0; i < N; ++i) hi[i] = 4 * (size[i] - 1) - 1;
+    for_box<N>(fill_tup<N>(0), hi, [&](tup<N> const &q) {
+      op_interp<N>(size, g1, q);
+      op_interp<N>(size, g3, q);
+    });
+  });
+}
+
+void record_ext(bool thorough)
+{
+  record_interp<1>();
+  record_interp<2>();
+  gen_t<2> const g1 = std_gen<2>(1000, 1, 10, 100);
+  for_box<2>(fill_tup<2>(0), fill_tup<2>(3), [&](tup<2> const &size) {
+    for_box<2>(fill_tup<2>(-1), fill_tup<2>(3), [&](tup<2> const &o) {
+      for (ll d = 0; d <= (thorough ? 5 : 3); ++d) op_spiral_grid(size, g1, o, d);
+    });
+  });
+}
+
 template <std::size_t N>
 void replay_n(vj::V const &v)
 {
@@ -714,6 +1094,8 @@ void replay_n(vj::V const &v)
     }
     op_apply<N>(sizes, gens, v.nums("co"));
   }
+  else if (f == "interp")
+    op_interp<N>(get_tup<N>(v, "gsize"), get_gen<N>(v, "gen"), get_tup<N>(v, "q"));
   else if (f == "clamped_min")
   {
     if (T == "i32") op_clamped_min<int, N>();
@@ -753,7 +1135,19 @@ int main(int argc, char **argv)
       record_n<3>(4, 5);
     else
       record_n<3>(3, 3);
+    if (!runaway) record_ext(thorough);
     vj::close();
+    return 0;
+  }
+  if (mode == "objreplay")
+  {
+    obj_replay(argv[2], argv[3]);
+    return 0;
+  }
+  if (mode == "objrecord")
+  {
+    if (argc < 6) return 3;
+    obj_record(argv[2], std::strtoull(argv[3], nullptr, 10), std::atoi(argv[4]), std::atoi(argv[5]));
     return 0;
   }
   if (mode == "replay")
@@ -763,6 +1157,11 @@ int main(int argc, char **argv)
     for (auto const &l : lines)
     {
       auto const v = vj::parse(l);
+      if (v->str("f") == "spiral_grid")
+      {
+        op_spiral_grid(get_tup<2>(*v, "gsize"), get_gen<2>(*v, "gen"), get_tup<2>(*v, "o"), v->num("d"));
+        continue;
+      }
       switch (v->num("N"))
       {
       case 1: replay_n<1>(*v); break;
